@@ -708,6 +708,28 @@ class RandomModule(object):
         return '\n'.join(out) + '\n'
 
 
+def recurring_name_modules():
+    """never-read imports whose bound identifier also occurs EARLIER in the same statement, as a component of the module path or
+    as another alias: the report must carry the position of the binding occurrence, not of the look-alike"""
+    stmts = ['from pkg.{n} import {n}', 'import pkg.{n} as {n}', 'from .{n} import {n}', 'from ..{n}.{n} import {n}',
+             'from a.{n} import {n}, c', 'from {n}.x import y as {n}', 'import {n}.x as y, z as {n}', 'from a import {n}x, {n}',
+             'from a import (x{n},\n    {n})', 'import a.{n}.b as {n}', 'from {n} import {n}', 'from a import b as {n}, {n} as c']
+    places = {
+        'module': lambda b: b,
+        'class': lambda b: ['class C:'] + ind(b) + ['print(C)'],
+        'function': lambda b: ['def F():'] + ind(b) + ['print(F)'],
+    }
+    out = []
+    for k, tpl in enumerate(stmts):
+        for n in ('mod', 'b'):
+            for pk, place in places.items():
+                body = tpl.replace('{n}', n).split('\n')
+                if pk != 'module' and len(body) > 1:
+                    continue
+                out.append(('recurring name %d in %s (%s)' % (k, pk, n), '\n'.join(place(body)) + '\n'))
+    return out
+
+
 def valid(src):
     try:
         compile(src, '<gen>', 'exec', dont_inherit=True)
@@ -793,7 +815,7 @@ def _run(check, S, tmp, quick, rng):
 
     # ---- 3. inputs
     mods = [('locals resolving to a MultiName (raised before f39595c)', CRASH_WITNESS)] + FIXED + matrix_modules() + \
-        dotted_family_modules()
+        dotted_family_modules() + recurring_name_modules()
     bad = [m for m in mods if not valid(m[1])]
     check.oblige('fixed corpus and matrix are valid modules', not bad, '; '.join(repr(m) for m in bad[:3]))
     mods = [m for m in mods if valid(m[1])]
